@@ -6,6 +6,7 @@ package encx
 
 import (
 	"bytes"
+	"context"
 	"crypto/aes"
 	"crypto/cipher"
 	"crypto/hmac"
@@ -31,8 +32,39 @@ import (
 	"verifharness/lib"
 )
 
-// ErrSource is the non-EOF error scripted readers fail with.
+// ErrSource is the default non-EOF error scripted readers fail with.
 var ErrSource = errors.New("verif: scripted source failure")
+
+// ErrKinds is the palette of error values a scripted source can fail with (Script.Err).
+// "wrapsEOF" is an error for which errors.Is(err, io.EOF) holds: the enc package (like much Go
+// code) tests end-of-stream with errors.Is, so it is an end-of-stream signal, not a failure.
+var ErrKinds = []string{"custom", "unexpectedEOF", "closedPipe", "noProgress", "ctxCanceled", "deadline", "wrapsEOF"}
+
+var errWrapsEOF = fmt.Errorf("verif: transport: %w", io.EOF)
+
+// SourceErr returns the error value of a palette entry.
+func SourceErr(kind string) error {
+	switch kind {
+	case "", "custom":
+		return ErrSource
+	case "unexpectedEOF":
+		return io.ErrUnexpectedEOF
+	case "closedPipe":
+		return io.ErrClosedPipe
+	case "noProgress":
+		return io.ErrNoProgress
+	case "ctxCanceled":
+		return context.Canceled
+	case "deadline":
+		return os.ErrDeadlineExceeded
+	case "wrapsEOF":
+		return errWrapsEOF
+	}
+	panic("unknown error kind " + kind)
+}
+
+// IsEOFClass: the palette entry is an end-of-stream signal in the errors.Is sense.
+func IsEOFClass(kind string) bool { return kind == "wrapsEOF" }
 
 // ErrProc is the error recording process functions fail with.
 var ErrProc = errors.New("verif: scripted processFn failure")
@@ -43,6 +75,18 @@ type Script struct {
 	Caps []int  `json:"caps"`
 	EWD  bool   `json:"ewd"`
 	Term string `json:"term"` // eof | failOnce | failSticky
+	Err  string `json:"err,omitempty"` // palette entry of ErrKinds the source fails with ("" = custom)
+}
+
+// Fails: the script ends in a genuine failure (not EOF, not an EOF-class error).
+func (s Script) Fails() bool { return s.Term != "" && s.Term != "eof" && !IsEOFClass(s.Err) }
+
+// ModelTerm is the terminal the Lean model is told: EOF-class errors are EOF.
+func (s Script) ModelTerm() string {
+	if s.Term == "" || IsEOFClass(s.Err) {
+		return "eof"
+	}
+	return s.Term
 }
 
 func (s Script) Line(key string) string {
@@ -54,10 +98,7 @@ func (s Script) Line(key string) string {
 	if s.EWD {
 		ewd = "1"
 	}
-	t := s.Term
-	if t == "" {
-		t = "eof"
-	}
+	t := s.ModelTerm()
 	return fmt.Sprintf("%s=%s caps=%s ewd=%s term=%s", key, hex.EncodeToString(s.Data), strings.Join(caps, ","), ewd, t)
 }
 
@@ -67,6 +108,7 @@ type ScriptReader struct {
 	caps []int
 	ewd  bool
 	term string
+	err  error
 	// Reads counts calls (monitor: bounded number of reads).
 	Reads int
 	// Failed is set once the scripted failure has been returned to the caller.
@@ -78,7 +120,7 @@ func (s Script) Reader() *ScriptReader {
 	if t == "" {
 		t = "eof"
 	}
-	return &ScriptReader{data: append([]byte(nil), s.Data...), caps: append([]int(nil), s.Caps...), ewd: s.EWD, term: t}
+	return &ScriptReader{data: append([]byte(nil), s.Data...), caps: append([]int(nil), s.Caps...), ewd: s.EWD, term: t, err: SourceErr(s.Err)}
 }
 
 func (r *ScriptReader) deliver() error {
@@ -86,10 +128,10 @@ func (r *ScriptReader) deliver() error {
 	case "failOnce":
 		r.term = "eof"
 		r.Failed = true
-		return ErrSource
+		return r.err
 	case "failSticky":
 		r.Failed = true
-		return ErrSource
+		return r.err
 	}
 	return io.EOF
 }
@@ -215,6 +257,15 @@ func Canon(err error) string {
 		return "emptySegment"
 	}
 	return "other:" + s
+}
+
+// CanonSrc is Canon for a run whose source was the given script: an error that is the injected
+// source error (after the source actually returned it) is "source", whatever its value.
+func CanonSrc(err error, s Script, src *ScriptReader) string {
+	if err != nil && err != io.EOF && s.Term != "" && s.Term != "eof" && src != nil && src.Failed && errors.Is(err, SourceErr(s.Err)) {
+		return "source"
+	}
+	return Canon(err)
 }
 
 // Guard runs f under recover and a deadline.
